@@ -17,6 +17,8 @@ func nNum(n int) node        { return node{fmt.Sprint(n), fmt.Sprint(n)} }
 func nStr(raw string) node   { return node{"\"" + raw + "\"", "\"" + raw + "\""} }
 func nRatio(n, d int) node   { return node{fmt.Sprintf("%d/%d", n, d), fmt.Sprintf("%d/%d", n, d)} }
 func nRatioBig(n, d string) node { return node{n + "/" + d, n + "/" + d} }
+func nRatioL(n, d int) node { return node{fmt.Sprintf("%d /%d", n, d), fmt.Sprintf("%d/%d", n, d)} }
+func nRatioR(n, d int) node { return node{fmt.Sprintf("%d/ %d", n, d), fmt.Sprintf("%d/%d", n, d)} }
 func nRatioSp(n, d int) node { return node{fmt.Sprintf("%d / %d", n, d), fmt.Sprintf("%d/%d", n, d)} }
 func nPercent(txt string) node {
 	body := strings.TrimSuffix(txt, "%")
@@ -178,6 +180,7 @@ func structurePrograms() []node {
 		program(nil, stCall("set_tx_meta", nStr("p"), nRatioBig("9223372036854775807", "18446744073709551615")), stCall("set_tx_meta", nStr("p"), nRatioBig("9223372036854775808", "18446744073709551616")),
 			stCall("set_tx_meta", nStr("p"), nRatioBig("18446744073709551615", "340282366920938463463374607431768211456")), stCall("set_tx_meta", nStr("p"), nRatioBig("4294967296", "9223372036854775808"))),
 		program(nil, stCall("set_tx_meta", nStr("k"), nStr("C:\\dir\\"))),
+		program(nil, stCall("set_tx_meta", nStr("p"), nRatioL(1, 25)), stCall("set_tx_meta", nStr("p"), nRatioR(3, 4)), stSend(sentLit(m(10)), world, dAllot([2]node{nRatioL(1, 4), kTo(dAcc(nAcc("x")))}, [2]node{nRatioR(3, 4), kKept}))),
 		program(nil, stCall("set_account_meta", nAcc("a:b-c_d"), nStr("k"), nAsset("EUR/2")), stCall("set_account_meta", nAcc("x"), nStr("k"), nMon(nAsset("COIN"), nNum(3))), stCall("set_account_meta", nAcc("x"), nStr("k"), nAcc("y"))),
 		// save
 		program([]decl{{"monetary", "m", nil}, {"account", "acc", nil}}, stSave(sentLit(m(10)), nAcc("a")), stSave(sentAll(usd), nVar("acc")), stSave(sentLit(nVar("m")), nAcc("b"))),
